@@ -51,6 +51,8 @@ func enumScenariosFor(prop string, depth int) []Scenario {
 		forwarded     bool // progressive call invocation to a callee that handles the timeout itself (forward_timeout)
 		restart       bool // progressive call invocation whose later chunks restart a short router-side timeout
 		sharedFwd     bool // shared registration (policy last): the first callee handles timeouts itself, the one called does not
+		blockedChunk  bool // (with progressive+stalledCallee) a later chunk has already been refused: the callee's queue was full
+		stalledCaller bool // the caller does not read and its one-slot queue is full: a progressive result is being retried
 	}
 	variants := []variant{{calleeCancels: true}, {}}
 	if prop == "C06" || prop == "C13" || prop == "C02" {
@@ -67,6 +69,12 @@ func enumScenariosFor(prop string, depth int) []Scenario {
 	}
 	if prop == "C13" || prop == "C03" {
 		variants = append(variants, variant{calleeCancels: true, sharedFwd: true})
+	}
+	if prop == "C02" || prop == "C05" || prop == "C07" {
+		variants = append(variants, variant{calleeCancels: true, progressive: true, stalledCallee: true, blockedChunk: true})
+	}
+	if prop == "C08" || prop == "C07" || prop == "C02" {
+		variants = append(variants, variant{calleeCancels: true, stalledCaller: true})
 	}
 	for _, v := range variants {
 		calleeFeats := []string{"progressive_call_results"}
@@ -112,7 +120,23 @@ func enumScenariosFor(prop string, depth int) []Scenario {
 		if v.stalledCallee {
 			setup = append(setup, map[string]any{"op": "stall", "s": 2})
 		}
+		if v.stalledCaller {
+			// the caller's only queue slot is taken by an EVENT it does not read
+			setup[0] = mkJoin(1, map[string][]string{"caller": callerFeats, "subscriber": {}})
+			setup[0]["cap"] = 1
+			setup = append(setup, msg(1, 32, 9, map[string]any{}, "t"), map[string]any{"op": "stall", "s": 1},
+				msg(3, 16, 1, map[string]any{}, "t", []any{"filler"}, map[string]any{}))
+			callOpts = map[string]any{"receive_progress": true}
+		}
 		setup = append(setup, msg(1, 48, 1, callOpts, "p", []any{1}, map[string]any{}))
+		if v.blockedChunk {
+			// the callee's one-slot queue holds the first INVOCATION: this chunk is answered "callee blocked"
+			setup = append(setup, msg(1, 48, 1, map[string]any{"progress": true}, "p", []any{2}, map[string]any{}))
+		}
+		if v.stalledCaller {
+			// the first progressive result cannot be queued: the callee's handler starts retrying
+			setup = append(setup, msg(2, 70, 1, map[string]any{"progress": true}, []any{"part1"}, map[string]any{}))
+		}
 		if v.restart {
 			// time passes before a later chunk re-arms the timer (with the first chunk's value: the
 			// dealer reads the timeout from the options stored with the invocation)
@@ -148,6 +172,11 @@ func enumScenariosFor(prop string, depth int) []Scenario {
 				msg(1, 48, 1, map[string]any{"progress": true, "timeout": 1000}, "p", []any{6}, map[string]any{}),
 				msg(1, 48, 1, map[string]any{"timeout": 1000}, "p", []any{7}, map[string]any{}),
 				map[string]any{"op": "tick", "ms": 101})
+		}
+		if v.stalledCaller {
+			alphabet = append(alphabet, map[string]any{"op": "tick", "ms": 6000}, map[string]any{"op": "tick", "ms": 61000},
+				map[string]any{"op": "resume", "s": 1},
+				msg(2, 70, 1, map[string]any{"progress": true}, []any{"part2"}, map[string]any{}))
 		}
 		if v.sharedFwd {
 			alphabet = append(alphabet, map[string]any{"op": "tick", "ms": 101},
